@@ -166,6 +166,16 @@ def override_doc_probes(ck):
         (a + "class B : A {\n  // detached\n\n  let x = 1;\n}\ndef d : B;\ndef e {\n  int z = d.x;\n}\n", "x;\n}\n", None),
         (a + "class B : A {\n  let x = 1;\n}\nclass C : B {\n  let x = 2;\n}\ndef d : C {\n  int w = x;\n}\n", "x;\n}\n", None),
         (a + "def d : A {\n  int w = x;\n}\n", "x;\n}\n", "width of the thing"),
+        # what stands directly above the declaration is a directive or a region the preprocessor switched off, not the comment above that
+        ("class Base;\n// only built with LEGACY\n#ifdef LEGACY\nclass Enc : Base;\n#endif\nclass Enc2 : Base;\ndef u : Enc2;\n", "Enc2;", None),
+        ("class Base;\n#define HAS\n// everything about Foo\n#ifdef HAS\nclass Foo;\n#endif\ndef u : Foo;\n", "Foo;", None),
+        ("class Base;\n// about nothing\n#ifndef NOPE\nclass Foo;\n#endif\ndef u : Foo;\n", "Foo;", None),
+        ("class Base;\n// about the else branch\n#ifdef NOPE\nclass Old;\n#else\nclass Foo;\n#endif\ndef u : Foo;\n", "Foo;", None),
+        ("class Base;\n// about nothing\n#define X\nclass Foo;\ndef u : Foo;\n", "Foo;", None),
+        ("class Base;\n#ifdef NOPE\n// inside the disabled region\n#endif\nclass Foo;\ndef u : Foo;\n", "Foo;", None),
+        ("class Base;\n#ifndef NOPE\n// directly above, inside the enabled region\nclass Foo;\n#endif\ndef u : Foo;\n", "Foo;", "directly above, inside the enabled region"),
+        ("class Base {\n  // width of the old layout\n#ifdef OLD\n  int width = 8;\n#endif\n  int height = 4;\n}\ndef d : Base {\n  let height = 5;\n}\n", "height = 5", None),
+        ("class Base;\n/* a block comment */\nclass Foo;\ndef u : Foo;\n", "Foo;", None),
     ]
     lines = []
     for text, marker, _ in probes:
